@@ -133,6 +133,16 @@ def check_sf(ctx, case):
         tagkw[tag + '_tag'] = data_tag
     if case.get('key_tag'):
         tagkw['key_tag'] = key_tag
+    if case.get('asked_before'):
+        # another ready-made selection function is asked for its expected key with the same master key beforehand (a campaign attacked at both ends)
+        ns2, cls2 = case['asked_before'].split('.')
+        ek2 = must(case, 'compute_expected_key of %s' % case['asked_before'], getattr(getattr(aes_sf if cipher == 'aes' else des_sf, ns2), cls2)().compute_expected_key, key=key.copy())
+        if cipher == 'aes':
+            exp2 = sched[0] if AES_CLASSES[case['asked_before']][1] == 'first' else sched[-1]
+        else:
+            exp2 = DR.schedule_words(kb)[DES_CLASSES[case['asked_before']][1]]
+        if list(map(int, np.asarray(ek2).reshape(-1))) != list(map(int, exp2)):
+            raise Violation('%s %s: compute_expected_key differs from the reference round key' % (cipher, case['asked_before']), case)
     sf = must(case, '%s.%s(%s)' % (cipher, name, sorted(kwargs) + sorted(tagkw)), klass, **kwargs, **tagkw)
     full_sf = klass(**tagkw)
     arr = data.astype(case['dtype'])
@@ -198,7 +208,7 @@ def check_sf(ctx, case):
     nontrivial = words is not None or guesses is not None or (cipher == 'aes' and len(key) != 16)
     ctx.case(case, nontrivial, ['%s.%s' % (cipher, name), 'words:' + type(words).__name__, 'guesses:' + ('default' if guesses is None else type(guesses).__name__),
                                 'keysize:%d' % len(key)] + (['traces==guesses'] if n == len(g_list) else []) + (['custom_tags'] if tagkw else [])
-             + (['decoy_metadata:' + '+'.join(sorted(case.get('extra_meta')))] if case.get('extra_meta') else []) + (['same_array_reused'] if case.get('prime') else []))
+             + (['decoy_metadata:' + '+'.join(sorted(case.get('extra_meta')))] if case.get('extra_meta') else []) + (['same_array_reused'] if case.get('prime') else []) + (['other_expected_key_asked_before'] if case.get('asked_before') else []))
 
 
 @st.composite
@@ -238,7 +248,8 @@ def sf_cases(draw, cipher, name):
     return {'kind': 'sf', 'cipher': cipher, 'class': name, 'key': key, 'inputs': inputs, 'words': words, 'guesses': guesses,
             'dtype': draw(st.sampled_from(['uint8', 'uint8', 'int16', 'int64'])), 'all_guesses': draw(st.integers(0, 9)) == 0,
             'data_tag': draw(st.sampled_from([None, None, 'pt', 'data', 'input'])), 'key_tag': draw(st.sampled_from([None, None, 'k', 'masterkey'])),
-            'extra_meta': draw(st.lists(st.sampled_from(['data', 'key', 'plaintext', 'ciphertext', 'foo']), max_size=3, unique=True)), 'prime': draw(st.booleans())}
+            'extra_meta': draw(st.lists(st.sampled_from(['data', 'key', 'plaintext', 'ciphertext', 'foo']), max_size=3, unique=True)), 'prime': draw(st.booleans()),
+            'asked_before': draw(st.sampled_from(['', ''] + [c for c in (AES_CLASSES if cipher == 'aes' else DES_CLASSES)]))}
 
 
 def unit_class(ctx, cipher, names, n):
